@@ -1,6 +1,7 @@
 """C16 — loop-level theorems + correspondence of Solver.solve with a scripted step oracle."""
 from ..gen import Gen
 from ..unit import run_unit
+from .. import camp_props
 from ..units.loop import Loop
 from ..units.penalty import Penalty
 
@@ -12,3 +13,4 @@ def run(rep, tier, seed, scratch):
     g = Gen(seed)
     for u in (Penalty(), Loop()):
         run_unit(rep, u, u.gen(g, tier), scratch)
+    camp_props.run_single(rep, 'C16', tier, seed, 40, 300)
